@@ -338,6 +338,7 @@ func runExportImport(run *ev.Run, c int) {
 		}
 	}
 	blocks := tierN(run.Tier, 125, 250)
+	extraCheckpoints := 0
 	for b := 1; b <= blocks; b++ {
 		if noBridge && b%20 == 18 {
 			if p := chain.r.K.Token.GetParams(chain.r.Ctx()); p.EnableErc20 {
@@ -356,7 +357,22 @@ func runExportImport(run *ev.Run, c int) {
 		if br.FinalErr != nil {
 			run.Note("block %d aborted: %v", br.Height, br.FinalErr)
 		}
-		if b%25 == 0 || b == blocks {
+		// besides the periodic checkpoints, up to four right after a block in which a cross-chain transfer was claimed
+		// (the asset's supply counters have just moved, its limit period is still running)
+		claimed := false
+		for _, tx := range br.Txs {
+			if tx.OK() && len(tx.Msgs) == 1 {
+				if _, ok := tx.Msgs[0].(*htlctypes.MsgClaimHTLC); ok {
+					claimed = true
+				}
+			}
+		}
+		extra := claimed && extraCheckpoints < 4 && b > 30 && b%25 != 0
+		if extra {
+			extraCheckpoints++
+			run.Count("checkpoints-right-after-a-claim", 1)
+		}
+		if b%25 == 0 || b == blocks || extra {
 			if p := chain.r.K.Token.GetParams(chain.r.Ctx()); !p.EnableErc20 && p.Beacon == "" {
 				run.Count("checkpoints-with-the-erc20-bridge-off-and-no-beacon", 1)
 			}
